@@ -39,7 +39,9 @@ Family == <<
   Cls("Override", <<Inc(ClsA), Fld(FBytes("a1", N(137))), Fld(FUint("e", N(139)))>>),
   Plain("IcModel", <<FModel("m", N(129), Inner, TRUE), FUint("z", N(131))>>),
   Plain("BigT",   <<FUint("a", N(252)), FUint("b", N(253)), FBytes("c", N(65535)), FBool("d", <<1, 1>>),
-                    FUint("e", N2p32m1), FText("f", N2p32)>>)
+                    FUint("e", N2p32m1), FText("f", N2p32)>>),
+  \* byte-string keys (added after a round-6 seed agent observed that such a map does not decode its own encoding)
+  Plain("MapB",   <<FMap("m", FBytes("k", N(133)), FUint("v", N(135))), FBool("t", N(137))>>)
 >>
 SchemaOf(f) == Collect(Family[f])
 
